@@ -3,6 +3,12 @@
 COMMON = "Trusted: the harness's mini API server and event loop reproduce what the reconcilers see (list order chosen by the case, work-queue coalescing, status update = status + annotations, followed by a service event); its reference oracles (pool arithmetic, admission, sharing rule) are written from the property text and the user documentation. Kubernetes admission invariants (>=1 port, families consistent with the policy, immutable primary family) are assumed."
 
 TEXT = {
+    "C20": {
+        "level": "Exploration of schedules under the race detector: generated event batches are delivered concurrently, one goroutine per reconciler (service events plus the re-syncs other handlers request, pool / configuration events, node events), through the real k8s.Listener to the real controller and speaker, while fetcher goroutines query pool counters, layer-2 status (reading the advertisements as the status reconciler does), per-service BGP peers and the ARP decision; any race report, panic or deadlock is a violation, and the final statuses / allocator memory / counters / announcements / routes must equal those of a serial replay of the same handlers in the order in which they took effect (logged inside the Listener's critical section).",
+        "design_ref": "DESIGN.md section 21",
+        "note": "Interleavings are produced by the Go scheduler (yields generated), not enumerated; the race detector extends each run to executions with the same happens-before graph. Workloads are restricted to those whose result is a function of the handler order. A race report fails the shard, not a single case: its replay file re-runs the shard's seed.",
+        "technique": "property-based generation of concurrent workloads + race detector + serial-replay differential (rapid, -race)",
+    },
     "C17": {
         "level": "Exploration with injected faults, in real time: generated sequences of Set calls (incl. empty sets and attribute-only changes), peer-side connection drops (at once / after k more UPDATEs), an optional handshake with an unexpected ASN and short pauses are run against the real native session (NewSession, run, connect, dialMD5, consumeBGP, sendUpdates, Close) over loopback TCP under the race detector; a scripted in-process peer decodes the stream with the independent RFC 4271 decoder and its table for the current connection must equal the last requested set; after Close no connection attempt or message may follow.",
         "design_ref": "DESIGN.md section 18",
